@@ -9,6 +9,7 @@ def main(pid):
     path = os.path.join(VERIF, 'known_findings.json')
     db = json.load(open(path)) if os.path.exists(path) else {'findings': [], 'fixed': []}
     have = {(f['property'], f['key']) for f in db['findings']}
+    byk = {(f['property'], f['key']): f for f in db['findings']}
     added, unmatched = 0, []
     for f in sorted(glob.glob(os.path.join(VERIF, 'replays', pid, '*.json'))):
         j = json.load(open(f))
@@ -16,8 +17,13 @@ def main(pid):
         for ent in CLASSES.get(pid, []):
             cls, rx, what = ent[:3]
             if re.search(rx, key) and (len(ent) < 4 or re.search(ent[3], json.dumps(j.get('replay')))):
+                sig = (j.get('replay') or {}).get('sig') if isinstance(j.get('replay'), dict) else None
                 if (pid, key) not in have:
-                    db['findings'].append(dict(property=pid, key=key, cls=cls, what=what, status='open')); have.add((pid, key)); added += 1
+                    e = dict(property=pid, key=key, cls=cls, what=what, status='open')
+                    if sig: e['sig'] = sig
+                    db['findings'].append(e); have.add((pid, key)); byk[(pid, key)] = e; added += 1
+                elif sig and byk[(pid, key)].get('sig') != sig:
+                    byk[(pid, key)]['sig'] = sig
                 break
         else:
             unmatched.append(key)
